@@ -41,17 +41,18 @@ theorem charstring_roundtrip (s : Bytes) (hs : ∀ c ∈ s, c < 256) :
     simpa [quote] using this
   · exact unescapeBytes_escapify _ hesc s hs
 
-/-- the same through `Token.unescape` + `str.encode()` (the path HINFO/ISDN/X25/CAA/NAPTR/GPOS take): `unescape`
-returns the octets as *code points*, and UTF-8 encoding is the identity only below 0x80.
-Full statement (false on the unchanged tree, DESIGN §6 D03): `∀ s, (∀ c ∈ s, c < 256) → … = some s`. -/
-theorem charstring_codepoint_path_partial (s : Bytes) (hs : ∀ c ∈ s, c < 128) :
+/-- the same through `Token.unescape` + `str.encode()`, i.e. `Tokenizer.get_string` (the code-point path; the
+character-string fields of HINFO/ISDN/X25/CAA/NAPTR and the URI target left it with the `fix:` commits 6aa8f9c / 210fbe5,
+it remains in use for tokens that are ASCII by construction — GPOS, mnemonics, salts): `unescape` returns the octets as
+*code points*, and UTF-8 encoding is the identity only below 0x80, so this path is exact only there. -/
+theorem charstring_codepoint_path_ascii (s : Bytes) (hs : ∀ c ∈ s, c < 128) :
     (unescapeCP (escapifyR s)).bind utf8Encode = some s := by
   have hesc := escROk_generated
   rw [show escapifyR s = escapifyRWith Consts.rdataEscaped s from rfl,
     unescapeCP_escapify _ hesc s (fun c hc => by have := hs c hc; omega)]
   simp [utf8Encode_ascii s hs]
 
-/-- the witness of D03: octet 0xC8 (`\200`) comes back as the two octets C3 88 -/
+/-- why `get_string` must not be used for character-strings (the witness of D03): octet 0xC8 (`\200`) comes back as the two octets C3 88 -/
 theorem charstring_codepoint_path_loses_high_octets :
     (unescapeCP (escapifyR [200])).bind utf8Encode = some [195, 136] := by decide
 
@@ -107,17 +108,17 @@ theorem generic_form_known (tn : String) (sch : Schema) (hsch : schemaOf tn = so
 
 /-- well-formed for text (the decidable side conditions are spelled out in `FieldOk` / `TailOk`):
 every field within its range, names legal and printed/parsed in a configuration that does not rewrite them,
-character-strings of the code-point path below 0x80 (D03), blobs non-empty, chunking lossless, and the
+character-strings of any octets within their length limits, blobs non-empty, chunking lossless, and the
 constructor's own validation. -/
 def WfText (tn : String) (st : Style) (env : PEnv) (vals : List FV) (tail : Option FV) : Prop :=
   ∃ sch, schemaOf tn = some sch ∧ FieldsOk st env sch.fields vals ∧ TailOk st sch.tail tail ∧ sch.check vals tail = true
 
-/-- "for every implemented record type and every well-formed value, the text form parses back to an equal record …
-producing text never fails": for every type described by a schema whose field kinds have a round-trip lemma,
-`to_styled_text` succeeds and `dns.rdata.from_text` of its output returns exactly the value.
-Full statement (false on the unchanged tree because of D03): the same without the `< 128` guard inside `FieldOk`/`TailOk`
-for character-strings read through `Token.unescape`. -/
-theorem parseText_printText_partial (tn : String) (st : Style) (env : PEnv) (vals : List FV) (tail : Option FV)
+/-- "for every implemented record type and every well-formed value, the text form parses back to an equal record: with
+arbitrary octets in character-strings and names … producing text never fails": for every type described by a schema whose
+field kinds have a round-trip lemma, `to_styled_text` succeeds and `dns.rdata.from_text` of its output returns exactly the
+value — all 256 octet values in every character-string (HINFO, ISDN, X25, NAPTR, CAA, URI, TXT-like), every lossless
+chunking style. -/
+theorem parseText_printText (tn : String) (st : Style) (env : PEnv) (vals : List FV) (tail : Option FV)
     (h : WfText tn st env vals tail) :
     ∃ sch text, schemaOf tn = some sch ∧ printRec sch st vals tail = some text ∧
       fromTextRdata (some tn) env text = some (.known vals tail) := by
@@ -125,28 +126,23 @@ theorem parseText_printText_partial (tn : String) (st : Style) (env : PEnv) (val
   obtain ⟨text, hp, hr⟩ := record_roundtrip tn sch hsch st env vals tail hf ht hchk
   exact ⟨sch, text, hsch, hp, hr⟩
 
-/-- "producing text never fails for a record the library accepted from text or wire" — counter-example on the unchanged
-tree (DESIGN §6 D04): the URI target is printed with `bytes.decode()`, which raises on octets that are not UTF-8.
-Full statement (false): `∀ vals tail, Valid vals tail → printRec sch st vals tail ≠ none` for the URI schema. -/
-theorem uri_to_text_raises :
-    (schemaOf "URI").bind (fun sch => printRec sch {} [.n 1, .n 1, .b [255]] none) = none := by decide
-
-/-- …and holds for every schema type under the conditions of `WfText` (restated from `parseText_printText_partial`) -/
-theorem text_total_partial (tn : String) (st : Style) (env : PEnv) (vals : List FV) (tail : Option FV)
+/-- "producing text never fails for a record the library accepted from text or wire", for the schema types under `WfText`
+(the URI counter-example of D04 is gone with commit 210fbe5: the target is printed through `_escapify`) -/
+theorem text_total (tn : String) (st : Style) (env : PEnv) (vals : List FV) (tail : Option FV)
     (h : WfText tn st env vals tail) : ∃ sch text, schemaOf tn = some sch ∧ printRec sch st vals tail = some text := by
-  obtain ⟨sch, text, a, b, _⟩ := parseText_printText_partial tn st env vals tail h
+  obtain ⟨sch, text, a, b, _⟩ := parseText_printText tn st env vals tail h
   exact ⟨sch, text, a, b⟩
 
 /-- field kinds that have a round-trip lemma -/
 def kindProved : FK → Bool
   | .uint _ | .ttl | .algo | .name | .ip4 | .ip6 | .salt => true
-  | .cstr _ _ q => q
+  | .cstr _ _ _ => true
   | _ => false
 
-/-- the record types whose every field kind is covered by `parseText_printText_partial` -/
+/-- the record types whose every field kind is covered by `parseText_printText` -/
 def provedTypes : List String :=
   ["A", "AAAA", "NS", "CNAME", "PTR", "DNAME", "NSAP-PTR", "MX", "AFSDB", "RT", "KX", "LP", "PX", "SRV", "RP", "SOA",
-   "TXT", "SPF", "AVC", "NINFO", "RESINFO", "WALLET", "HINFO", "X25", "ISDN", "NAPTR", "DS", "DLV", "CDS",
+   "TXT", "SPF", "AVC", "NINFO", "RESINFO", "WALLET", "HINFO", "X25", "ISDN", "NAPTR", "CAA", "URI", "DS", "DLV", "CDS",
    "TLSA", "SMIMEA", "SSHFP", "ZONEMD", "DNSKEY", "CDNSKEY", "DHCID", "OPENPGPKEY", "BRID", "HHIT", "L32", "NSEC3PARAM"]
 
 /-- every type in `provedTypes` has a schema made of proved field kinds only (complete finite table, by `decide`) -/
@@ -160,6 +156,11 @@ example : WfText "MX" {} {} [.n 10, .nm [[109, 97, 105, 108], [101, 120], []]] n
   · refine ⟨?_, ?_, ?_⟩ <;> decide
   · unfold OctetsOk; decide
   · exact ⟨rfl, rfl, Or.inl rfl⟩
+
+/-- `HINFO "\\200\"" ""`: a high octet and a quote in a character-string -/
+example : WfText "HINFO" {} {} [.b [200, 34], .b []] none := by
+  refine ⟨_, rfl, ⟨⟨by decide, by intro m hm; cases hm; decide, by intro m hm; cases hm; decide⟩,
+    ⟨⟨by decide, by intro m hm; cases hm; decide, by intro m hm; cases hm; decide⟩, trivial⟩⟩, trivial, rfl⟩
 
 example : WfText "TXT" {} {} [] (some (.bl [[97, 200], []])) := by
   refine ⟨_, rfl, trivial, ⟨by simp, ?_⟩, rfl⟩
